@@ -84,3 +84,10 @@ Theorem C02_stmt_text_fixpoint_default_partial : forall ind bnl t, wf_file t ->
   option_map (ml_print_file ind bnl) (parse_file (ml_print_file ind bnl t)) = Some (ml_print_file ind bnl t).
 Proof. exact stmt_text_fixpoint_default. Qed.
 Print Assumptions C02_stmt_text_fixpoint_default_partial.
+
+(* ------------------------------------------------------------------ NOTE (supersedes a comment above)
+   The comment above C02_stmt_default_layout_partial says that the default-mode round trip and
+   idempotence are NOT proved.  That is out of date: they are proved further down in this file
+   (C02_stmt_idempotent_default_partial, C02_stmt_text_fixpoint_default_partial) and in Props/C01.v
+   (C01_stmt_roundtrip_default_partial), for all well-formed trees on canonical positions.  What
+   remains unproved is stated in the comments of those theorems and in notes/C01S.md (round 3). *)
